@@ -227,12 +227,125 @@ def discharge(obs, lw: L.Lowerer = None, timeout=20.0, levels=(1, 2), pool=None,
             left = [o for o in left if o.verdict not in ("discharged", "candidate")]
         if left:
             run_wave([(o, first_of(o)) for o in left], rank=rank, skip=4)
+        left = [o for o in todo if o.verdict not in ("discharged", "candidate")]
+        if left and maxlevel >= 2:
+            trig_pass(left, timeout, pool, state)
+        left = [o for o in todo if o.verdict not in ("discharged", "candidate")]
+        if left and not _in_sign_pass[0]:
+            sign_pass(left, timeout, pool, state, maxlevel)
         if log:
             log("  %d non-trivial obligations, %d solver queries, ranking %s, %d not discharged" % (
                 len(todo), state["queries"], order[:3], sum(1 for o in todo if o.verdict != "discharged")))
     for o in obs:
         o.meta.pop("_sat_level", None)
     return obs
+
+
+_in_sign_pass = [False]
+
+
+def sign_pass(left, timeout, pool, state=None, level=2, max_dens=24):
+    """Denominators (and even-power style sub-terms) whose sign the solver can prove separately are replaced by fresh
+    reals that carry only that sign: an over-approximation, so `unsat` still discharges.  Lemma queries are obligations
+    of the same run (cond: den <= 0 resp. den >= 0 under the obligation's assumptions)."""
+    from .sym import ge, le
+
+    _in_sign_pass[0] = True
+    try:
+        cache = {}
+        for o in left:
+            roots = o.roots() + [s for a in o.assume for s in bool_syms(a)]
+            dens = {}
+            for n in reachable(roots):
+                if n.op == "div" and n.args[1].op not in ("const", "var"):
+                    dens[n.args[1].nid] = n.args[1]
+            if not dens or len(dens) > max_dens:
+                continue
+            lem = []
+            for nid, d in dens.items():
+                if nid not in cache:
+                    cache[nid] = None
+                    lem.append(Ob("sign lemma #%d > 0" % nid, cond=le(d, 0), assume=o.assume, meta={"nid": nid, "sg": ">"}))
+                    lem.append(Ob("sign lemma #%d < 0" % nid, cond=ge(d, 0), assume=o.assume, meta={"nid": nid, "sg": "<"}))
+            if lem:
+                discharge(lem, timeout=min(timeout, 5.0), levels=(1, 2), pool=pool, keep_text=0, cut_threshold=0)
+                for l in lem:
+                    if l.verdict == "discharged":
+                        cache[l.meta["nid"]] = l.meta["sg"]
+            signs = {nid: cache[nid] for nid in dens if cache.get(nid)}
+            if not signs:
+                continue
+            # keep only outermost proven denominators? inner ones are hidden below the cuts anyway
+            jobs = []
+            for kw in ({}, dict(divvar=True)):
+                lw = L.Lowerer(cuts={k: True for k in signs}, **kw)
+                lw.cut_signs = dict(signs)
+                try:
+                    text, _ = _text_for(lw, o, level)
+                except Exception:
+                    continue
+                jobs.append((text, timeout, "z3", True))
+            if not jobs:
+                continue
+            res = pool.run(jobs, groups=[0] * len(jobs), final=lambda qid, r: r["result"] == "unsat")
+            if state is not None:
+                state["queries"] += len(jobs)
+            for r in res:
+                o.time += r.get("time", 0.0)
+                if r["result"] == "unsat":
+                    o.verdict, o.level, o.model, o.detail = "discharged", "signcut/%d" % level, None, ""
+    finally:
+        _in_sign_pass[0] = False
+
+
+def trig_pass(left, timeout, pool, state=None, max_angles=3):
+    """Exact rational parametrisation of every (cos, sin) pair (Lowerer(trig=mask)): an obligation that resisted the
+    s^2 + c^2 = 1 encodings is discharged iff it is unsat for all 2^k masks (k distinct angles), each mask tried with the
+    plain, sqrt-rewrite and division-variable encodings; a sat answer of the generic mask is a genuine candidate."""
+    encs = [("pairs", {}), ("sqrw", dict(sqrt_rewrite=True)), ("divvar", dict(divvar=True))]
+    jobs, tags = [], []
+    for o in left:
+        try:
+            l0 = L.Lowerer(trig=0)
+            _text_for(l0, o, 2)
+        except Exception:
+            continue
+        k = len(l0.trig_args)
+        if k == 0 or k > max_angles:
+            continue
+        o.meta["_trig_masks"] = 1 << k
+        for mask in range(1 << k):
+            for name, kw in encs:
+                try:
+                    text, _ = _text_for(L.Lowerer(trig=mask, **kw), o, 2)
+                except Exception:
+                    continue
+                jobs.append((text, timeout, "z3", True))
+                tags.append((o, mask, name))
+    if not jobs:
+        return
+    groups = [(id(t[0]), t[1]) for t in tags]
+    gid = {}
+    groups = [gid.setdefault(g, len(gid)) for g in groups]
+    res = pool.run(jobs, groups=groups, final=lambda qid, r: r["result"] in ("unsat", "sat"))
+    if state is not None:
+        state["queries"] += len(jobs)
+    per = {}
+    for (o, mask, name), r in zip(tags, res):
+        o.time += r.get("time", 0.0)
+        d = per.setdefault(id(o), {"o": o, "unsat": set(), "sat": {}})
+        if r["result"] == "unsat":
+            d["unsat"].add(mask)
+        elif r["result"] == "sat":
+            d["sat"].setdefault(mask, r.get("model", {}))
+    for d in per.values():
+        o = d["o"]
+        n = o.meta.pop("_trig_masks")
+        if len(d["unsat"]) == n:
+            o.verdict, o.level, o.model, o.detail = "discharged", "trigparam/2", None, ""
+        elif d["sat"] and not (set(d["sat"]) & d["unsat"]):
+            o.verdict, o.level = "candidate", "trigparam/2"
+            o.model = d["sat"][min(d["sat"])]
 
 
 def model_env(ob: Ob, defaults=None):
